@@ -5,6 +5,7 @@ import re
 from hypothesis import strategies as st
 
 from vlib.core import Part, Violation, Discard, call
+from vlib import forms
 from vlib.models import TableGrader
 from vlib.oracles import best_assignments, min_cost_matching
 
@@ -392,7 +393,7 @@ def build_grader(spec):
         if d == 0 and spec['form'] != 'infer':
             vals = [cfg_alt(spec, 0, a) for a in spec['answers']]
             kw['answers'] = vals[0] if len(vals) == 1 and not spec.get('top_tuple') else tuple(vals)
-        g = SingleListGrader(**kw)
+        g = forms.make(SingleListGrader, kw)
     return g
 
 
